@@ -441,24 +441,32 @@ structure Exe where
   core : Core
   ret : Int
 
+/-- the two table walks that add `cycles * 8` to `cycle_count` -/
+def cycles (c : Core) (opcode : BitVec 8) : Chk W :=
+  if opcode = 0x68 then do
+    let pc ← getPc c
+    pure (cyclesOf SimTables.table1802x16 (readRam c (z16 pc + 1)))      -- int _opcode = READ_RAM(PC + 1)
+  else pure (cyclesOf SimTables.table1802 (z8 opcode))
+
+/-- the `switch (REG_I)` and what follows it: `return -1` inside, or `++PC; return 0` -/
+def finish (c : Core) : Chk Exe := do
+  match ← dispatch c with
+  | .illegal c => pure { core := c, ret := -1 }
+  | .ok c => do
+    let pc ← getPc c
+    let c ← setPc c (pc + 1)                                            -- ++PC
+    pure { core := c, ret := 0 }
+
 /-- `int Simulate1802::operand_exe(int opcode)` for `opcode = READ_RAM(pc)` (0..255) -/
 def operandExe (c : Core) (opcode : BitVec 8) : Chk Exe := do
   let c := { c with s := { c.s with n := opcode &&& 0xF, i := (opcode &&& 0xF0) >>> 4 } }
   if opcode = 0x00 then do                                             -- IDL: ++PC; return 0
-    let c ← do let pc ← getPc c; setPc c (pc + 1)
+    let pc ← getPc c
+    let c ← setPc c (pc + 1)
     pure { core := c, ret := 0 }
   else do
-    let cyc ←
-      if opcode = 0x68 then do
-        let pc ← getPc c
-        pure (cyclesOf SimTables.table1802x16 (readRam c (z16 pc + 1)))
-      else pure (cyclesOf SimTables.table1802 (z8 opcode))
-    let c := { c with s := { c.s with cycleCount := c.s.cycleCount + cyc } }
-    match ← dispatch c with
-    | .illegal c => pure { core := c, ret := -1 }
-    | .ok c => do
-      let c ← do let pc ← getPc c; setPc c (pc + 1)                    -- ++PC
-      pure { core := c, ret := 0 }
+    let cyc ← cycles c opcode
+    finish { c with s := { c.s with cycleCount := c.s.cycleCount + cyc } }
 
 /-- one `run(-1, 1)` in step mode -/
 def step (mem : Mem) (s : State) : Chk (StepOut State × Mem × Option (BitVec 8)) :=
